@@ -26,7 +26,8 @@ import ast
 
 from ..model import AnalysisError, FuncInfo
 from ..sym import U, is_const, Run, run_function
-from ..util import bind_call, strip_await, where, SA, walk_own
+from ..util import (bind_call, strip_await, where, SA, walk_own,
+                    expand_aliases)
 from .common import txt
 
 ADMIN = {'sync': 'InstrumentedServer', 'async': 'InstrumentedAsyncServer'}
@@ -224,14 +225,15 @@ def wrapper_pairs(m, fam):
     f = m.method(A, 'instrument')
     out = []
     saved = {}
-    for n in walk_own(f.node):
+    fnode = expand_aliases(f.node)
+    for n in walk_own(fnode):
         if isinstance(n, ast.Assign) and \
                 isinstance(n.targets[0], ast.Attribute):
             t = n.targets[0]
             if t.attr.startswith('__') and isinstance(n.value,
                                                       ast.Attribute):
                 saved[(U(t.value), n.value.attr)] = t.attr
-    for n in walk_own(f.node):
+    for n in walk_own(fnode):
         if isinstance(n, ast.Assign) and \
                 isinstance(n.targets[0], ast.Attribute):
             t = n.targets[0]
@@ -428,7 +430,7 @@ def r5_own_tables(ctx, fam):
     A = ADMIN[fam]
     f = m.method(A, 'instrument')
     tables = []
-    for n in walk_own(f.node):
+    for n in walk_own(expand_aliases(f.node)):
         if isinstance(n, ast.Assign) and isinstance(n.value, ast.Dict) and \
                 not n.value.keys:
             for t in n.targets:
@@ -557,6 +559,12 @@ def r6_instrument_forwarding(ctx, fam):
 
 
 def run(ctx):
+    ctx.rule('C18.R8', 'the refusal raised by the admin connect handler is '
+             'the package\'s ConnectionRefusedError (the class the server\'s '
+             'connect path catches), not the builtin of the same name',
+             floor=2)
+    from .common import exception_identity
+    exception_identity(ctx, ('admin', 'async_admin'), 'C18.R8')
     ctx.rule('C18.R7', 'the instrumentation never reads user sessions',
              floor=20)
     for fam in SA:
